@@ -226,6 +226,8 @@ def summarize(pid, tier, seed, results, wall, mods):
         for e in obls:
             obligations += 1
             v = e["verdict"]
+            if os.environ.get("PYVC_SLOW") and e.get("seconds", 0) > float(os.environ["PYVC_SLOW"]):
+                print("SLOW %.1fs %s [%s] path=%s" % (e.get("seconds", 0), e["name"], e.get("backend"), e.get("path")))
             solver_s += e.get("seconds", 0)
             kf = e.get("known_finding")
             if kf and kf.get("inside") == "refuted":
